@@ -140,7 +140,7 @@ func (ev *evidence) write(verif string, spec *CheckSpec) error {
 	var funcs, repoFuncs, intr []string
 	for f := range ev.funcs {
 		funcs = append(funcs, f)
-		if strings.Contains(f, repoModule) && !strings.Contains(f, ".VH_") && !strings.Contains(f, ".VT_") && !strings.Contains(f, ".v") {
+		if strings.Contains(f, repoModule) && !isHarnessFunc(f) {
 			repoFuncs = append(repoFuncs, f)
 		}
 	}
@@ -266,4 +266,25 @@ func boundsText(spec *CheckSpec, tier string) []string {
 		add(u)
 	}
 	return out
+}
+
+// isHarnessFunc reports whether an SSA function name denotes harness code
+// (VH_/VT_/VF_ entries, v* shim and helper functions, and their closures).
+func isHarnessFunc(name string) bool {
+	base := name
+	if i := strings.IndexByte(base, '['); i >= 0 {
+		base = base[:i]
+	}
+	if i := strings.LastIndexByte(base, '/'); i >= 0 {
+		base = base[i+1:]
+	}
+	// base is like "slice.Partition" or "(*heapq.Queue).Add" or "heapq.VH_x$1"
+	if strings.HasPrefix(base, "(") {
+		return false
+	}
+	if i := strings.IndexByte(base, '.'); i >= 0 {
+		base = base[i+1:]
+	}
+	return strings.HasPrefix(base, "VH_") || strings.HasPrefix(base, "VT_") || strings.HasPrefix(base, "VF_") ||
+		(len(base) > 1 && base[0] == 'v' && (base[1] >= 'A' && base[1] <= 'Z' || base[1] == 'f'))
 }
